@@ -664,11 +664,20 @@ def gen_filter(rng, ts, kind, stats):
 
 def suite_filter_tables(rng, n, stats, kinds=None):
     cases = []
+    prev = None
     for _ in range(n):
-        kind = rng.choice(kinds or ['size', 'prefix', 'position', 'suffix', 'overlap'])
-        ts = gen_tokenizer(rng)
-        L, R, lk, rk, la, ra = gen_join_frames(rng, ts, stats, big=rng.random() < 0.2)
-        f, d = gen_filter(rng, ts, kind, stats)
+        if prev is not None and rng.random() < 0.2:
+            # the same filter OBJECT used again on other tables: the model is a function of (tokenizer, measure, threshold,
+            # flags, tables), so anything the object remembers from earlier calls shows up as a difference
+            kind, ts, f, d = prev
+            L, R, lk, rk, la, ra = gen_join_frames(rng, ts, stats, big=rng.random() < 0.2)
+            stats.hit('filter_tables.object_reused')
+        else:
+            kind = rng.choice(kinds or ['size', 'prefix', 'position', 'suffix', 'overlap'])
+            ts = gen_tokenizer(rng)
+            L, R, lk, rk, la, ra = gen_join_frames(rng, ts, stats, big=rng.random() < 0.2)
+            f, d = gen_filter(rng, ts, kind, stats)
+        prev = (kind, ts, f, d)
         lo, ro = choose_out_attrs(rng, L, lk, la), choose_out_attrs(rng, R, rk, ra)
         L0, R0, la0, ra0 = L, R, la, ra
         L, R, lk, rk, la, ra, _c, _a, _b, bad = malform(rng, stats, L, R, lk, rk, la, ra)
@@ -712,10 +721,16 @@ def gen_candset(rng, L, R, lk, rk, stats):
     if rng.random() < 0.3:
         ids = rng.sample(range(1000), len(sel))
     cols = {'_id': ids, 'l_' + lk: [p[0] for p in sel], 'r_' + rk: [p[1] for p in sel]}
-    if rng.random() < 0.3:
+    c = rng.random()
+    if c < 0.3:
         cols['extra'] = [rng.choice(['x', None, 'y']) for _ in sel]
+    elif c < 0.5:
+        # an all-numeric candidate set with a float column (a `_sim_score` left over from an earlier stage)
+        cols[rng.choice(['extra', '_sim_score'])] = pd.Series([rng.choice([0.5, 1.0, 2.25, float('nan')]) for _ in sel], dtype='float64')
+        stats.hit('candset.float_extra')
     C = pd.DataFrame(cols)
-    if len(sel) and rng.random() < 0.1:
+    big_keys = any(isinstance(x, int) and not isinstance(x, bool) and abs(x) >= 2 ** 53 for col in ('l_' + lk, 'r_' + rk) for x in cols[col])
+    if len(sel) and rng.random() < 0.1 and not big_keys:
         # a key column that went through a NaN / CSV / merge: ints have become floats (1.0 refers to the key 1)
         for col, key, T in (('l_' + lk, lk, L), ('r_' + rk, rk, R)):
             if str(T[key].dtype).startswith('int') and rng.random() < 0.7:
